@@ -10,6 +10,7 @@ import QV.Driver.FormTree
 import QV.Driver.Xml
 import QV.Driver.ClassGraph
 import QV.Driver.QmlDir
+import QV.Driver.Cli
 
 open QV
 
@@ -45,6 +46,10 @@ def dispatch (req : Sexp) : Sexp :=
   | .list (.atom "c18" :: args) => Driver.QmlDir.handleModel args
   | .list (.atom "spec-c18-dirs" :: args) => Driver.QmlDir.handleSpec args
   | .list (.atom "c18-cliout" :: args) => Driver.QmlDir.handleCli args
+  | .list (.atom "cli-paths" :: args) => Driver.Cli.handlePaths args
+  | .list (.atom "spec-cli-paths" :: args) => Driver.Cli.handleSpecPaths args
+  | .list (.atom "cli-hist" :: args) => Driver.Cli.handleHist args
+  | .list (.atom "cli-kill" :: args) => Driver.Cli.handleKill args
   | _ => .list [.atom "bad-request"]
 
 partial def loop (h : IO.FS.Stream) (out : IO.FS.Stream) : IO Unit := do
